@@ -250,6 +250,28 @@ static uint8_t* arena_take(size_t total) {
   pthread_mutex_unlock(&arena_mu);
   return r;
 }
+static uint8_t* arena_take_packed(size_t n, size_t al) {
+  uint8_t* r = 0;
+  pthread_mutex_lock(&arena_mu);
+  if (!arena_base) {
+    void* m = mmap(0, ARENA_SIZE, PROT_READ | PROT_WRITE, MAP_PRIVATE | MAP_ANONYMOUS | MAP_NORESERVE, -1, 0);
+    if (m != MAP_FAILED) arena_base = m;
+  }
+  if (arena_base) {
+    if (arena_live == 0) {
+      arena_lo = 4096;  // keep clear of the very first page
+      arena_hi = ARENA_SIZE;
+    }
+    uintptr_t u = ((uintptr_t)(arena_base + arena_lo) + al - 1) & ~(uintptr_t)(al - 1);
+    if (u + n + 4096 <= (uintptr_t)(arena_base + arena_hi)) {
+      r = (uint8_t*)u;
+      arena_lo = (size_t)(u + n - (uintptr_t)arena_base);
+      arena_live++;
+    }
+  }
+  pthread_mutex_unlock(&arena_mu);
+  return r;
+}
 int case_begin(const char* key, const char* fmt, ...) {
   if (in_case) harness_fail("case_begin inside a case (%s)", cur_key);
   cur_idx++;
@@ -272,7 +294,7 @@ int case_begin(const char* key, const char* fmt, ...) {
   cur_hash = h;
   g_case_aligned = ((h >> 9) & 3) == 0;
   // 1/16 of the cases each: adjacent ascending, adjacent descending, page-end, page-start, far apart
-  g_case_place = g_case_aligned ? 0 : (((h >> 11) & 15) < 5 ? 1 + (int)((h >> 11) & 15) : 0);
+  g_case_place = g_case_aligned ? 0 : (((h >> 11) & 15) < 6 ? 1 + (int)((h >> 11) & 15) : 0);
   rng_seed(&cur_rng, G.seed ^ hash_bytes(G.prop, strlen(G.prop), 3), h);
   cur_note[0] = 0;
   cur_viols = 0;
@@ -294,7 +316,7 @@ void case_end(int nontrivial) {
   n_eval++;
   if (g_case_aligned) cnt("cases_with_every_buffer_64B_aligned", 1);
   {
-    static const char* const pn[] = {0, "cases_with_buffers_adjacent_ascending", "cases_with_buffers_adjacent_descending", "cases_with_buffers_ending_at_a_guard_page", "cases_with_buffers_starting_after_a_guard_page", "cases_with_buffers_64GiB_apart"};
+    static const char* const pn[] = {0, "cases_with_buffers_adjacent_ascending", "cases_with_buffers_adjacent_descending", "cases_with_buffers_ending_at_a_guard_page", "cases_with_buffers_starting_after_a_guard_page", "cases_with_buffers_64GiB_apart", "cases_with_buffers_packed_back_to_back"};
     if (g_case_place) cnt(pn[g_case_place], 1);
   }
   if (nontrivial) hset_add(&nontrivial_cases, cur_hash);
@@ -459,7 +481,22 @@ void* gb_alloc(gbuf_t* g, size_t n, size_t align, size_t mis, size_t guard) {
   }
   g->arena = 0;
   g->map_base = 0;
-  if (g_case_place >= 3) {
+  if (g_case_place == 6) {
+    // packed: consecutive buffers touch (the next one starts where the previous one ends, rounded up to its alignment),
+    // like consecutive limbs or rows of one array; no canaries in between (results are still compared by every oracle)
+    uint8_t* m = arena_take_packed(n, align > 8 ? align : 8);
+    if (m) {
+      g->arena = 1;
+      g->base = m;
+      g->p = m;
+      g->n = n;
+      g->total = n;
+      g->guard = 0;
+      g->cseed = 0;
+      return g->p;
+    }
+  }
+  if (g_case_place >= 3 && g_case_place <= 5) {
     // own mapping: [inaccessible page][data pages][inaccessible page]; the user bytes are flush with the end (3) or the
     // start (4) of the data pages, so that an over-read / under-read of even one byte faults in every build, also inside
     // the assembly kernels no sanitizer instruments. Mode 5: ordinary layout, but mappings 64 GiB apart.
